@@ -171,6 +171,25 @@ func runC04(c *runCfg) error {
 			}
 		}
 	}
+	// result-format lists of every length against statements of 1..5 columns (fewer, as many, more codes
+	// than columns), described and executed through the portal and the statement
+	for ncols := 1; ncols <= 5; ncols++ {
+		for k := 0; k <= ncols+2; k++ {
+			row := opT{kind: "row"}
+			for i := 0; i < ncols; i++ {
+				row.vals = append(row.vals, tv("v"))
+			}
+			st := stmtT{id: 4, cols: textCols(ncols), prog: []opT{row, {kind: "complete", tag: []byte("SELECT 1")}}, ret: "nil"}
+			cfg := cfgT{limit: 4096, auth: "none", term: "none", parse: []parseEntry{{query: []byte("q"), stmts: []stmtT{st}}}}
+			var rf []int
+			for i := 0; i < k; i++ {
+				rf = append(rf, i%2)
+			}
+			raw := cat(stdStartup, mParse([]byte("s"), []byte("q"), 0), mBind([]byte("p"), []byte("s"), nil, nil, rf), mDescribe('P', []byte("p")),
+				mExecute([]byte("p"), 0), mDescribe('S', []byte("s")), mSync())
+			emitPair("rfcount", flatCase(0, "rfcount", cfg, raw, nil))
+		}
+	}
 	// fault enumeration: the connection breaks at every read (= every byte offset) and at every write
 	sessions := 3
 	if c.tier == "thorough" {
